@@ -44,11 +44,15 @@ class C05(Prop):
         if tier == "quick":
             return [Layer("RE-tok(<=4)", lambda: GR.tok_texts(0, 4), policies=nat),
                     Layer("RE-ast(<=5)", lambda: GR.ast_cases(1, 5), policies=nat + ["1"]),
-                    Layer("RE-pairs(<=3)", lambda: GR.pair_cases(3), policies=nat)]
+                    Layer("RE-pairs(<=3)", lambda: GR.pair_cases(3), policies=nat + ["1@used", "2"]),
+                    Layer("RE-ast(<=4) combined with the empty-text regex",
+                          lambda: (("pairE", c[1], c[2], 1, 0) for c in GR.ast_cases(1, 4)), policies=nat + ["1", "2", "3"])]
         return [Layer("RE-tok(<=5)", lambda: GR.tok_texts(0, 5), policies=nat),
                 Layer("RE-ast(<=6)", lambda: GR.ast_cases(1, 6), policies=nat + ["1"]),
                 Layer("RE-ast(7)", lambda: GR.ast_cases(7, 7), policies=nat),
-                Layer("RE-pairs(<=4)", lambda: GR.pair_cases(4), policies=nat)]
+                Layer("RE-pairs(<=4)", lambda: GR.pair_cases(4), policies=nat + ["1@used"]),
+                Layer("RE-ast(<=5) combined with the empty-text regex",
+                      lambda: (("pairE", c[1], c[2], 1, 0) for c in GR.ast_cases(1, 5)), policies=nat + ["1", "2", "3", "4"])]
 
     # ---- per-case data
     def texts(self, case):
@@ -61,7 +65,7 @@ class C05(Prop):
         return out
 
     def reference(self, case):
-        if case[0] == "pair":
+        if case[0] in ("pair", "pairE"):
             a, b = GR.asts(case[1])[case[2]], GR.asts(case[3])[case[4]]
             return {"kind": "PAIR", "a": a, "b": b}
         ts = self.texts(case)
@@ -76,7 +80,7 @@ class C05(Prop):
 
     def outcome(self, case, ref):
         if ref["kind"] == "PAIR":
-            return ("PAIR", ref["a"][0], ref["b"][0])
+            return ("PAIR", case[0], ref["a"][0], ref["b"][0])
         c = ref["cl"][0]
         return (c[0], repr(c[1])[:40])
 
@@ -87,8 +91,8 @@ class C05(Prop):
         return c[0] == "WELL" and c[1][0] not in ("sym", "eps")
 
     def describe(self, case):
-        if case[0] == "pair":
-            return {"pair": [GR.render(GR.asts(case[1])[case[2]]), GR.render(GR.asts(case[3])[case[4]])]}
+        if case[0] in ("pair", "pairE"):
+            return {"pair": [GR.render(GR.asts(case[1])[case[2]]), "" if case[0] == "pairE" else GR.render(GR.asts(case[3])[case[4]])]}
         return {"texts": self.texts(case)[:3]}
 
     script = describe
@@ -172,11 +176,24 @@ class C05(Prop):
         a, b = ref["a"], ref["b"]
         ta, tb = GR.render(a), GR.render(b, ".", "+")
         same = a == b and case[1:3] == case[3:5]
+        if case[0] == "pairE":
+            # second operand: the regex of the empty text (what union()/concatenate() are built from internally); the
+            # documentation does not say what it denotes, so its meaning is read off the library's own tree
+            tb = ""
         ra = ctx.call(Regex, ta)
         rb = ra if same else ctx.call(Regex, tb)
         if not (ctx.returns(ra, "C05.construct", text=ta) and ctx.returns(rb, "C05.construct", text=tb)):
             return
         ra, rb = ra.value, rb.value
+        if case[0] == "pairE":
+            t = ctx.call(RX.from_lib, rb)
+            if not ctx.returns(t, "C05.tree", text=tb):
+                return
+            b = t.value
+        if ctx.variant == "used":
+            # the operands have been used on their own before being combined
+            ctx.call(ra.accepts, ["a"])
+            ctx.call(rb.accepts, ["b"])
         for name, call, want in (("union", lambda: ra.union(rb), ("alt", a, b)),
                                  ("union.operator", lambda: ra | rb, ("alt", a, b)),
                                  ("concatenate", lambda: ra.concatenate(rb), ("cat", a, b)),
@@ -185,6 +202,28 @@ class C05(Prop):
             r = ctx.call(call)
             if ctx.returns(r, "C05." + name, a=ta, b=tb):
                 self._lang(ctx, "C05." + name.split(".")[0], r.value, RX.to_nfa(want), ta + " ; " + tb)
+                if "." not in name:
+                    g = ctx.call(r.value.to_cfg)
+                    if ctx.returns(g, "C05.%s.to_cfg" % name, a=ta, b=tb):
+                        wn = RX.to_nfa(want)
+                        ctx.batch_equal("C05.%s.to_cfg.contains" % name, lambda w: g.value.contains(list(w)),
+                                        words_for(want, 2), lambda w: wn.accepts(w), a=ta, b=tb)
+        if case[0] == "pairE":
+            # the combinations used as operands again (nested combinators)
+            for name, call, want in (("union.nested", lambda: ra.union(rb).concatenate(ra), ("cat", ("alt", a, b), a)),
+                                     ("union.nested", lambda: rb.union(ra).concatenate(ra), ("cat", ("alt", b, a), a)),
+                                     ("kleene_star.nested", lambda: ra.concatenate(rb.kleene_star().concatenate(ra)),
+                                      ("cat", a, ("cat", ("star", b), a))),
+                                     ("union.nested", lambda: ra.union(rb).concatenate(ra).kleene_star(),
+                                      ("star", ("cat", ("alt", a, b), a)))):
+                r = ctx.call(call)
+                if ctx.returns(r, "C05." + name, a=ta, b=tb):
+                    self._lang(ctx, "C05." + name.split(".")[0], r.value, RX.to_nfa(want), ta + " ; <empty text> (nested)")
+                    g = ctx.call(r.value.to_cfg)
+                    if ctx.returns(g, "C05.%s.to_cfg" % name, a=ta):
+                        wn = RX.to_nfa(want)
+                        ctx.batch_equal("C05.%s.to_cfg.contains" % name, lambda w: g.value.contains(list(w)),
+                                        words_for(want, 3), lambda w: wn.accepts(w), a=ta, nested=True)
         # the operands still denote their own languages afterwards
         for rg, ast, t in ((ra, a, ta), (rb, b, tb)):
             wn = RX.to_nfa(ast)
